@@ -91,6 +91,27 @@ EXTRA = {
  "C20": " Also: savgol on an irregular lattice of abscissae, stacking with repeated labels.",
 }
 
+# second build session: fault kinds, object histories, presentation classes (memory layout / dtype), file names
+EXTRA2 = {
+ "C02": " Every deviation point is explored with two fault kinds: the process is killed there, or the operation fails there with an I/O error (an ordinary exception seen by the library's own handlers).",
+ "C03": " Also: the same converter object re-initialised (same / another window) before a forced re-split.",
+ "C04": " Every deviation point of first-level runs (thorough: all runs) is also explored with an injected I/O error instead of a kill; oracle-relevant history facts are part of the state identity; originals whose file name has no '.ap.' component or contains 'ap' elsewhere; a run that kills the interpreter (e.g. SIGBUS after truncating a mapped file) is reported as a violation, not a hang.",
+ "C05": " Clause layouts: every public call x array argument x memory layout (Fortran order, strided view, negative strides, read-only, offset view) and dtype gives the result of the plain call and leaves its arguments untouched.",
+ "C07": " Clause layouts: memory layouts and float32/float64 presentations of every argument; results do not alias arguments.",
+ "C08": " Also: per-shank files written by the real converter (both bands, both encodings) opened through the Reader: geometry = the parent's restricted to the shank, one entry per recorded channel.",
+ "C10": " Also: analog lines with 2.5 % glitch samples below their floor; clause layouts (dtypes int8..int64, uint16 words, strided / Fortran inputs).",
+ "C11": " Also: metadata still in progress (no fileSizeBytes / fileTimeSecs, like the shipped while-acquiring fixture) for the online reader; one reader object closed and re-opened over every 3-step history of 6 file sizes (offline / online, opened at construction or later).",
+ "C12": " Also: the same converter object re-initialised with another window before a forced re-conversion.",
+ "C13": " Also: spike times as int64 / uint64 / int32 / uint32 arrays.",
+ "C14": " Also: every enumerated integer-valued batch handed over as int16 / int32 / float32 (same features); clause layouts.",
+ "C15": " Also: files with blank (all-zero) batches and an intermittently silent channel; a non-finite sample on a far-away good channel must not reach repaired channels; clause layouts.",
+ "C16": " Clause layouts: memory layouts / float32 presentations of the data and of the per-channel range.",
+ "C17": " Also: the sampling rate of tscale as int, float and numpy int16 / uint16 / int32 / float32 / float64 scalars.",
+ "C18": " Clause layouts: every helper x argument x memory layout / dtype, integer signals with a real kernel.",
+ "C19": " Also: the caller overwrites its own time arrays after the fit and then uses the kept map; clause layouts.",
+ "C20": " Clause layouts: every utility x argument x memory layout / dtype (spike times as int32 / uint64 ...), arguments untouched, results not aliasing arguments.",
+}
+
 ALL = ["C%02d" % i for i in range(1, 21)]
 PENDING_REASON = "check not built yet in this round (planned, see DESIGN.md section 3); no claim is made until it is"
 
@@ -107,7 +128,7 @@ def main():
             "evidence_file": "/verif/evidence/%s.json" % pid,
             "replay_cmd_template": "%s /verif/run.py %s --replay {path}" % (PY, pid),
             "engine": c["engine"],
-            "level_claimed": {"category": c.get("category", "model_checking"), "text": c["text"] + EXTRA.get(pid, ""), "design_ref": "DESIGN.md " + c["ref"]},
+            "level_claimed": {"category": c.get("category", "model_checking"), "text": c["text"] + EXTRA.get(pid, "") + EXTRA2.get(pid, ""), "design_ref": "DESIGN.md " + c["ref"]},
             "level_note": c["note"],
             "technique": c["technique"],
         })
@@ -125,7 +146,7 @@ def main():
             {"name": "E1", "path": "/verif/mc/engine.py", "serves_properties": [p for p in ALL if CHECKS.get(p, {}).get("engine", "").startswith("E1")],
              "kind_free_text": "sharded exhaustive box enumeration of inputs/configurations/truncation points on the real code against boring reference models"},
             {"name": "E2", "path": "/verif/mc/histories.py", "serves_properties": [p for p in ALL if "E2" in CHECKS.get(p, {}).get("engine", "")],
-             "kind_free_text": "explicit-state BFS over operation histories on a real scratch directory with crash injection at every filesystem deviation point"},
+             "kind_free_text": "explicit-state BFS over operation histories on a real scratch directory; at every filesystem deviation point a crash (process killed) and an I/O error (operation fails) are injected"},
             {"name": "E3", "path": "/verif/mc/sched.py", "serves_properties": [p for p in ALL if "E3" in CHECKS.get(p, {}).get("engine", "")],
              "kind_free_text": "controlled baton scheduler enumerating Mazurkiewicz traces of the joblib worker bodies over shared files"},
         ],
